@@ -29,6 +29,7 @@ namespace sw { namespace universal {
         */
 
         if (a.iszero()) return dd{};
+        if (a.isinf(INF_TYPE_POSITIVE)) return a;  // 1/sqrt(inf) = 0 and inf * 0 is NaN
 
 #if DOUBLEDOUBLE_THROW_ARITHMETIC_EXCEPTION
         if (a.isneg()) throw dd_negative_sqrt_arg();
